@@ -358,9 +358,17 @@ impl Feig {
                 sequences::ReadCardResponse::StatusInformation(data) => {
                     // Retrieve the card information.
                     let tlv = data.tlv.ok_or(zvt::ZVTError::IncompleteData)?;
-                    if !tlv.subs.is_empty() {
+                    // The applications are listed at the top level or, as by the cVEND, in the
+                    // "applications on card" container.
+                    let on_card = tlv.subs_on_card.map(|inner| inner.subs).unwrap_or_default();
+                    if !tlv.subs.is_empty() || !on_card.is_empty() {
                         // A payment application anywhere in the list makes it a bank card.
-                        if tlv.subs.iter().any(|subs| subs.application_id.is_some()) {
+                        if tlv
+                            .subs
+                            .iter()
+                            .chain(on_card.iter())
+                            .any(|subs| subs.application_id.is_some())
+                        {
                             card_info = Some(CardInfo::Bank);
                         } else {
                             bail!("Unknown card type")
